@@ -113,6 +113,8 @@ class UnitGen:
                         'substs': [[a, b] for (a, b, _) in f.substs],
                         'renames': f.renames, 'aliases': f.aliases,
                         'rules': scoped_rules(self.rules_text, f.path)}
+                if 'for_by_index' in f.opts:
+                    opts['for_by_index'] = True      # `for x in S` with S a slice-typed place (R6c)
                 if 'lifted' in f.opts:
                     parent, cn = f.opts['lifted'].split()
                     pf = [x for x in m.fns if x.name == parent]
